@@ -1402,6 +1402,10 @@ def rule_measure_indices(ctx: Ctx) -> None:
             bad.append((one_[0], "the new stabilizer Z_q is not written as table[p, q + n] = 1"))
         if not (copy_[0].lineno < zero_[0].lineno < one_[0].lineno):
             bad.append((copy_[0], "the pivot row must be copied to the destabilizer before it is cleared and set to Z_q"))
+        if lp is not None and not (copy_[0].lineno > (lp.end_lineno or lp.lineno)):
+            bad.append((copy_[0], f"the pivot row is copied into the destabilizer row before the loop that multiplies the pivot into the rows `{short(lp.iter)}`: that row "
+                                  f"set was computed earlier and contains destabilizer row {pvar} - n whenever the old destabilizer had an X on the measured "
+                                  f"qubit, so the fresh copy is multiplied by the pivot again and collapses to the identity (the copy belongs after the loop)"))
     else:
         raise AnalysisError("z_measurement_gate: the three table stores of the random branch (copy, clear, set Z_q) were not found")
     sg = [a for st in rand_body for a in ast.walk(st) if isinstance(a, ast.Assign) and isinstance(a.targets[0], ast.Subscript) and norm(a.targets[0].value) in (f"{TB}.phase", f"{TB}._phase")]
